@@ -218,6 +218,8 @@ mod proofs {
     dec_varuint_any_bytes!(k_decode_varuint_u32_any_bytes, u32);
     dec_varuint_any_bytes!(k_decode_varuint_u64_any_bytes, u64);
     dec_varuint_any_bytes!(k_decode_varuint_usize_any_bytes, usize);
+    // BTreeMap::decode_from decodes its size as i32 (integer fallback of an unannotated `let length`)
+    dec_varuint_any_bytes!(k_decode_varuint_i32_any_bytes, i32);
 
     macro_rules! dec_varint_any_bytes {
         ($name:ident, $t:ty) => {
